@@ -212,7 +212,10 @@ fn c02_one(ctx: &mut Ctx, c: &DayCase, r: &mut Rng) {
             // `t` is the unwrapped hour count from local midnight of the requested date (it can fall a
             // few seconds outside [0, 24) when the Newton correction crosses the midnight seam): that is
             // the instant the library solved for
-            let (_, alt, _) = hour_angle_alt(jd_of(c, t), lat(c), lon(c));
+            // (more than three minutes outside [0, 24) is not that seam: then the reported clock time is an
+            // instant of the requested date, whatever day the library solved for)
+            let t_eval = if (-0.05..=24.05).contains(&t) { t } else { t.rem_euclid(24.) };
+            let (_, alt, _) = hour_angle_alt(jd_of(c, t_eval), lat(c), lon(c));
             ctx.nontrivial(&format!("{}|{}|{:.0}", name, c.rd, lat(c)));
             if (alt + 0.833).abs() > 0.05 {
                 ctx.fail(c.to_json(), format!("{} at {}: oracle altitude {:.4} deg", name, hms((t.rem_euclid(24.) * 3600.) as i64), alt), "-0.833 +- 0.05 deg".into());
